@@ -293,10 +293,8 @@ public:
         requires(detail::is_transparent_v<key_compare>)
     [[nodiscard]] constexpr auto find(K const& x) -> iterator
     {
-        return find_if(begin(), end(), [&x](auto const& val) {
-            auto comp = key_compare();
-            return comp(val, x);
-        });
+        auto it = lower_bound(x);
+        return (it != end() and not key_compare{}(x, *it)) ? it : end();
     }
 
     /// \brief Finds an element with key that compares equivalent to the value
@@ -305,10 +303,8 @@ public:
         requires(detail::is_transparent_v<key_compare>)
     [[nodiscard]] constexpr auto find(K const& x) const -> const_iterator
     {
-        return find_if(cbegin(), cend(), [&x](auto const& val) {
-            auto comp = key_compare();
-            return comp(val, x);
-        });
+        auto it = lower_bound(x);
+        return (it != end() and not key_compare{}(x, *it)) ? it : end();
     }
 
     /// \brief Checks if there is an element with key equivalent to key in the
